@@ -220,6 +220,7 @@ func (it *Interp) onEvent(b *Backend, j int, e ecs.Entity, p Ptrs, typed bool) {
 	if b.inReenter {
 		return // events of the world change a callback makes itself (see below) are not part of the model
 	}
+	it.sameObjectAttempt(b)
 	os := it.M.Obs[j]
 	s := -1
 	if !e.IsZero() {
